@@ -92,7 +92,7 @@ type histCase struct {
 	Ops []Op
 }
 
-var names = []string{"a", "b", "my config", "ünï", "x&y=z", "<b>", "a", "c"}
+var names = []string{"a", "b", "my config", "ünï", "x&y=z", "<b>", "a", "c", "A", "My Config", "ÜNÏ", "a/b"}
 
 var valuePool = map[string][]string{
 	"bool": {"t", "f", "true", "false", "1", "0", "yes", "", "y"}, "int": {"-1", "0", "5", "80", ""}, "float": {"0", "0.005", "0.1", "1", "0.001", ""},
@@ -462,7 +462,7 @@ func names4(m []entry) []string {
 
 func TestPropHistory(t *testing.T) {
 	vk.Main(t, vk.Spec[histCase]{ID: "C19", Facet: "history", Quick: 400, Thorough: 3000, Gen: genHist, Check: checkHist, Journal: true,
-		Rule: "histories of 2..9 save / delete / apply operations through the web handlers against a scratch XDG_CONFIG_HOME; names incl. duplicates, spaces, unicode, '&', '<'; saves carry 0..5 URL parameters over every option with values incl. defaults, the empty string, alternative bool spellings and invalid values; oracle: an ordered map model (name -> normalised options) compared after every step with the settings file (valid JSON, same names, order and options) and with the config menu of a rendered page (names, URLs whose parameters equal the saved options in URL form); following a menu link gives the same /top page as the original options; non-trivial = >=2 names and a save after a delete"})
+		Rule: "histories of 2..9 save / delete / apply operations through the web handlers against a scratch XDG_CONFIG_HOME; names incl. duplicates, pairs differing only in letter case, spaces, unicode, '&', '<', '/'; saves carry 0..5 URL parameters over every option with values incl. defaults, the empty string, alternative bool spellings and invalid values; oracle: an ordered map model (name -> normalised options) compared after every step with the settings file (valid JSON, same names, order and options) and with the config menu of a rendered page (names, URLs whose parameters equal the saved options in URL form); following a menu link gives the same /top page as the original options; non-trivial = >=2 names and a save after a delete"})
 }
 
 // ---- facet crash: every byte position at which a save can be cut ----
@@ -588,6 +588,92 @@ func checkCrash(c *crashCase, o *vk.Obs) []string {
 func TestPropCrash(t *testing.T) {
 	vk.Main(t, vk.Spec[crashCase]{ID: "C19", Facet: "crash", Quick: 30, Thorough: 160, Gen: genCrash, Check: checkCrash,
 		Rule: "for a generated previous settings file and a generated save, a child process performs the same save under RLIMIT_FSIZE=k for EVERY byte position k of the new file (all positions when the file is <= 320 bytes, else ~35 positions: a stride over the whole file, 6 drawn ones and the ends), once as a failing write (SIGXFSZ ignored) and once as a process killed in the middle of the write; oracle: afterwards the settings file holds exactly the complete previous or the complete new contents; every (save, k) pair is an evaluation; non-trivial = a previous file existed"})
+}
+
+// ---- facet syscall: the saving process is killed between any two system calls ----
+
+const fileSyscalls = "openat,open,creat,write,pwrite64,writev,rename,renameat,renameat2,unlink,unlinkat,link,linkat,fsync,fdatasync,ftruncate,truncate,close,fchmod,fchmodat,chmod,mkdir,mkdirat"
+
+func checkSyscall(c *crashCase, o *vk.Obs) []string {
+	var e vk.Errs
+	strace, err := exec.LookPath("strace")
+	if err != nil {
+		o.Inconcl = append(o.Inconcl, "strace not installed")
+		return nil
+	}
+	if _, err := os.Stat(helper()); err != nil {
+		o.Inconcl = append(o.Inconcl, "helper binary missing")
+		return nil
+	}
+	dir := filepath.Dir(settingsPath())
+	os.RemoveAll(dir)
+	for _, op := range c.Before {
+		if code, out := runHelper(nil, "save", query(op.Params, op.Name)); code != 0 {
+			return []string{fmt.Sprintf("preparing save failed: %d %s", code, out)}
+		}
+	}
+	old, _ := os.ReadFile(settingsPath())
+	if code, out := runHelper(nil, "save", query(c.Save.Params, c.Save.Name)); code != 0 {
+		return []string{fmt.Sprintf("uninterrupted save failed: %d %s", code, out)}
+	}
+	newb, _ := os.ReadFile(settingsPath())
+	restore := func() {
+		// also clears temporary files a killed save left behind
+		os.RemoveAll(dir)
+		if old != nil {
+			os.MkdirAll(dir, 0o755)
+			os.WriteFile(settingsPath(), old, 0o644)
+		}
+	}
+	o.NonTrivial = len(old) > 0
+	killed := 0
+	// strace counts invocations per system call: enumerate (call, k) pairs
+scan:
+	for _, sc := range strings.Split(fileSyscalls, ",") {
+		for k := 1; k <= 200; k++ {
+			restore()
+			cmd := exec.Command(strace, "-f", "-o", "/dev/null", "-e", "trace="+sc, "-e", fmt.Sprintf("inject=%s:signal=KILL:when=%d", sc, k),
+				helper(), "save", query(c.Save.Params, c.Save.Name))
+			cmd.Env = append(os.Environ(), "XHELPER_LOCKTHREAD=1", "GOMAXPROCS=1")
+			out, err := cmd.CombinedOutput()
+			got, rerr := os.ReadFile(settingsPath())
+			if os.IsNotExist(rerr) {
+				got = nil
+			}
+			if string(got) != string(old) && string(got) != string(newb) {
+				e.Addf("saving process killed on entering its %s call number %d: the settings file holds neither the previous contents (%d bytes) nor the new contents (%d bytes) but %s\nhelper: %.200s",
+					sc, k, len(old), len(newb), describeFile(got, rerr), out)
+				break scan
+			}
+			if err == nil {
+				// the save ran to completion: the process makes fewer than k calls of this kind
+				if string(got) != string(newb) {
+					e.Addf("uninterrupted traced save did not produce the new contents")
+					break scan
+				}
+				break
+			}
+			killed++
+		}
+	}
+	if killed < 5 && len(e) == 0 {
+		o.Inconcl = append(o.Inconcl, fmt.Sprintf("only %d kill points were reached", killed))
+	}
+	o.Label(fmt.Sprintf("killpoints:%d0s", killed/10))
+	restore()
+	return e
+}
+
+func describeFile(b []byte, err error) string {
+	if err != nil {
+		return "no file at all (" + err.Error() + ")"
+	}
+	return fmt.Sprintf("%d bytes: %.200q", len(b), b)
+}
+
+func TestPropSyscall(t *testing.T) {
+	vk.Main(t, vk.Spec[crashCase]{ID: "C19", Facet: "syscall", Quick: 8, Thorough: 30, Gen: genCrash, Check: checkSyscall,
+		Rule: "for a generated previous settings file and a generated save, a child process performs the same save under strace with SIGKILL injected on ENTERING the k-th invocation of each file-related system call (open/write/rename/unlink/fsync/close/mkdir/chmod/...; the kernel skips the call), for every call kind and every k until the save completes: every state between two system calls of the save is a crash point; oracle: afterwards the settings file holds exactly the complete previous or the complete new contents; non-trivial = a previous file existed"})
 }
 
 // ---- facet concurrent: simultaneous saves and deletes ----
